@@ -16,13 +16,21 @@ ENV.pop("GOSUMDB", None)
 
 
 def sh(cmd, cwd=None, timeout=3000):
-    try:
-        return subprocess.run(cmd, shell=isinstance(cmd, str), cwd=cwd, env=ENV, stdout=subprocess.PIPE, stderr=subprocess.STDOUT, text=True, timeout=timeout)
-    except subprocess.TimeoutExpired as e:
-        class R:  # noqa
-            returncode = 124
-            stdout = "TIMEOUT " + str(e)
-        return R()
+    # the Go build cache is shared with other experiments on this machine and has been wiped
+    # under running builds more than once: a build that dies on a vanished cache entry is retried
+    for attempt in range(3):
+        try:
+            r = subprocess.run(cmd, shell=isinstance(cmd, str), cwd=cwd, env=ENV, stdout=subprocess.PIPE, stderr=subprocess.STDOUT, text=True, timeout=timeout)
+        except subprocess.TimeoutExpired as e:
+            class R:  # noqa
+                returncode = 124
+                stdout = "TIMEOUT " + str(e)
+            return R()
+        if r.returncode != 0 and "/go-build/" in r.stdout and ("no such file or directory" in r.stdout or "cannot open file" in r.stdout):
+            time.sleep(5)
+            continue
+        return r
+    return r
 
 
 def main():
